@@ -4,7 +4,8 @@ namespace XalanModel.C01
 open VStack
 
 theorem findLocal_frame (n : Nat) (frame rest : List Entry) (hf : NoMarker frame) :
-    (findLocal n false (frame ++ .ctxMarker :: rest)).map (·.1) = (frameBindings frame).lookup n := by
+    ∀ act, (findLocal n false act (frame ++ .ctxMarker :: rest)).map (·.1) = (frameBindings frame).lookup n := by
+  intro act
   induction frame with
   | nil => simp [findLocal, frameBindings]
   | cons e es ih =>
@@ -67,24 +68,103 @@ theorem pushes_shape (es : List Entry) : ∀ (s : VStack), s.cur = s.stack.lengt
     omega
 
 theorem popContextMarkerAux_frame (l : List Entry) (hl : NoMarker l) :
-    ∀ (fuel : Nat) (rest : List Entry) (g : Nat) (m : Bool), l.length < fuel →
-      popContextMarkerAux fuel ⟨l ++ .ctxMarker :: rest, (l ++ .ctxMarker :: rest).length, g, m⟩
-        = ⟨rest, rest.length, g, m⟩ := by
+    ∀ (fuel : Nat) (rest : List Entry) (g : Nat) (m a : Bool), l.length < fuel →
+      popContextMarkerAux fuel ⟨l ++ .ctxMarker :: rest, (l ++ .ctxMarker :: rest).length, g, m, a⟩
+        = ⟨rest, rest.length, g, m, a⟩ := by
   induction l with
   | nil =>
-    intro fuel rest g m hf
+    intro fuel rest g m a hf
     cases fuel with
     | zero => omega
     | succ f => simp [popContextMarkerAux, pop]
   | cons e es ih =>
-    intro fuel rest g m hf
+    intro fuel rest g m a hf
     have hes : NoMarker es := fun x hx => hl x (List.mem_cons_of_mem _ hx)
     have hne : e ≠ .ctxMarker := hl e (by simp)
     cases fuel with
     | zero => simp at hf
     | succ f =>
-      have := ih hes f rest g m (by simp at hf; omega)
+      have := ih hes f rest g m a (by simp at hf; omega)
       simp only [List.cons_append, popContextMarkerAux, hne, if_false]
       simpa [pop] using this
+
+/-- without activation a lookup hands back the list it was given -/
+theorem findLocal_pure (n : Nat) (p : Bool) (l : List Entry) :
+    ∀ r, findLocal n p false l = some r → r.2 = l := by
+  induction l with
+  | nil => intro r h; simp [findLocal] at h
+  | cons e es ih =>
+    intro r h
+    cases e with
+    | ctxMarker => simp [findLocal] at h
+    | elemFrame k =>
+      simp only [findLocal, Option.map_eq_some_iff] at h
+      obtain ⟨x, hx, rfl⟩ := h
+      simp [ih x hx]
+    | var m v =>
+      simp only [findLocal] at h
+      split at h
+      · cases h; rfl
+      · simp only [Option.map_eq_some_iff] at h
+        obtain ⟨x, hx, rfl⟩ := h
+        simp [ih x hx]
+    | activeParam m v =>
+      simp only [findLocal] at h
+      split at h
+      · cases h; rfl
+      · simp only [Option.map_eq_some_iff] at h
+        obtain ⟨x, hx, rfl⟩ := h
+        simp [ih x hx]
+    | param m v =>
+      simp only [findLocal] at h
+      split at h
+      · cases h; rfl
+      · simp only [Option.map_eq_some_iff] at h
+        obtain ⟨x, hx, rfl⟩ := h
+        simp [ih x hx]
+
+theorem split_recombine (l : List Entry) (k : Nat) :
+    l.take k ++ (l.drop k).dropLast ++ (l.drop k).drop (l.drop k).dropLast.length = l := by
+  have h1 : (l.drop k).dropLast ++ (l.drop k).drop (l.drop k).dropLast.length = l.drop k := by
+    rw [List.dropLast_eq_take, List.length_take]
+    have : min ((l.drop k).length - 1) (l.drop k).length = (l.drop k).length - 1 := by omega
+    rw [this, List.take_append_drop]
+  rw [List.append_assoc, h1, List.take_append_drop]
+
+/-- what a parameter lookup finds in a marker-free frame segment -/
+theorem findLocal_param_frame (n : Nat) (frame rest : List Entry) (hf : NoMarker frame) :
+    ∀ act, (findLocal n true act (frame ++ .ctxMarker :: rest)).map (·.1) = (frameParamBindings frame).lookup n := by
+  intro act
+  induction frame with
+  | nil => simp [findLocal, frameParamBindings]
+  | cons e es ih =>
+    have hes : NoMarker es := fun x hx => hf x (List.mem_cons_of_mem _ hx)
+    have ih' := ih hes
+    cases e with
+    | ctxMarker => exact absurd rfl (hf .ctxMarker (by simp))
+    | elemFrame k =>
+      simp only [List.cons_append, findLocal, frameParamBindings, Option.map_map]
+      simpa [Function.comp_def] using ih'
+    | var m v =>
+      simp only [List.cons_append, findLocal, frameParamBindings, List.lookup_cons]
+      by_cases h : m = n
+      · subst h; simp
+      · have h' : (n == m) = false := by simpa using fun hh => h hh.symm
+        simp only [h, if_false, h', Option.map_map]
+        simpa [Function.comp_def] using ih'
+    | activeParam m v =>
+      simp only [List.cons_append, findLocal, frameParamBindings, List.lookup_cons]
+      by_cases h : m = n
+      · subst h; simp
+      · have h' : (n == m) = false := by simpa using fun hh => h hh.symm
+        simp only [h, if_false, h', Option.map_map]
+        simpa [Function.comp_def] using ih'
+    | param m v =>
+      simp only [List.cons_append, findLocal, frameParamBindings, List.lookup_cons, Bool.true_and]
+      by_cases h : m = n
+      · subst h; simp
+      · have h' : (n == m) = false := by simpa using fun hh => h hh.symm
+        simp only [h, decide_false, Bool.false_eq_true, if_false, h', Option.map_map]
+        simpa [Function.comp_def] using ih'
 
 end XalanModel.C01
